@@ -139,7 +139,9 @@ def describe(d: tuple[int, ...]) -> dict[str, str]:
 N_VARIANTS = 4
 
 WRONG_CTYPES = ["application/json", ARROW_CT + "; charset=utf-8", "application/octet-stream", "text/plain"]
-UNKNOWN_CENCS = ["br", "deflate", "compress", "zstd, gzip"]
+UNKNOWN_CENCS = ["br", "deflate", "bzip2", "zstd, gzip"]
+# every unsupported token the coding cross of props/C15.py sends with every body class
+ALL_UNKNOWN_CENCS = ["br", "deflate", "bzip2", "compress", "zstd, gzip", "x-gzip", "lz4", "snappy"]
 
 
 def _ipc(schema: pa.Schema, cols: dict[str, Any], md: dict[bytes, bytes], bounds: list[int] | None = None) -> bytes:
@@ -176,6 +178,20 @@ class World:
                 self.apps[(auth_on, cap_on)] = app
                 self.clients[(auth_on, cap_on)] = falcon.testing.TestClient(app)
         self._tokens: dict[tuple[bool, bool, str, int], tuple[bytes, bytes]] = {}
+        # a fifth app on which zstd is a KNOWN BUT DISABLED coding (VGI_HTTP_DISABLE_ZSTD is read by make_wsgi_app)
+        import os
+
+        prev = os.environ.get("VGI_HTTP_DISABLE_ZSTD")
+        os.environ["VGI_HTTP_DISABLE_ZSTD"] = "1"
+        try:
+            self.zstd_disabled_client = falcon.testing.TestClient(
+                make_wsgi_app(self.server, prefix="", token_key=b"k" * 32, enable_landing_page=False, enable_describe_page=False)
+            )
+        finally:
+            if prev is None:
+                del os.environ["VGI_HTTP_DISABLE_ZSTD"]
+            else:
+                os.environ["VGI_HTTP_DISABLE_ZSTD"] = prev
         self._other = falcon.testing.TestClient(make_wsgi_app(RpcServer(C15Protocol, C15Impl()), prefix="", token_key=b"z" * 32))
 
     # -- tokens ---------------------------------------------------------------------------------------------------
@@ -359,9 +375,9 @@ class World:
         return {"app": (auth_on, cap_on), "path": path, "headers": headers, "body": wire, "plain_len": len(plain), "name": name}
 
     # -- running --------------------------------------------------------------------------------------------------------
-    def observe(self, req: dict[str, Any]) -> dict[str, Any]:
+    def observe(self, req: dict[str, Any], client: Any = None) -> dict[str, Any]:
         del CALLS[:]
-        client = self.clients[req["app"]]
+        client = client or self.clients[req["app"]]
         r = client.simulate_post(req["path"], body=req["body"], headers=req["headers"], wsgierrors=io.StringIO())
         return classify(r, list(CALLS))
 
